@@ -210,6 +210,8 @@ func (o Op) String() string {
 		return fmt.Sprintf("create(<-s%d,ctx%d)", o.Scope, o.Ctx)
 	case "get":
 		return fmt.Sprintf("get(s%d,%s)", o.Scope, o.Ident)
+	case "getk":
+		return fmt.Sprintf("get(s%d,%s with a key of a defined string type)", o.Scope, o.Ident)
 	case "close", "cancel":
 		return fmt.Sprintf("%s(s%d)", o.Kind, o.Scope)
 	case "closeN":
@@ -245,6 +247,10 @@ func (x *run) exec(o Op) {
 		if usable(o.Scope) {
 			x.R.Resolve(o.Scope, o.Ident)
 			x.Stats.Resolves++
+		}
+	case "getk":
+		if usable(o.Scope) {
+			x.R.ResolveAliasKey(o.Scope, o.Ident)
 		}
 	case "close":
 		if o.Scope != 0 && usable(o.Scope) {
@@ -415,6 +421,11 @@ func (x *run) genHistory(rt *rapid.T, o histOpts) {
 			}
 			t := rapid.SampledFrom(live).Draw(rt, "rtag")
 			id := rapid.SampledFrom(ids).Draw(rt, "rid")
+			if id.Key != "" && id.Group == "" && id.T != kit.TVoid && rapid.IntRange(0, 5).Draw(rt, "aliasKey") == 0 {
+				// the same name as a value of another (defined string) type: not the registered identity
+				x.exec(Op{Kind: "getk", Scope: t, Ident: id})
+				continue
+			}
 			x.exec(Op{Kind: "get", Scope: t, Ident: id})
 		}
 	}
@@ -703,6 +714,21 @@ func (x *run) unexpectedErrors(prop string) *Failure {
 func (x *run) foreignConstructors(prop string) *Failure {
 	if a := x.W.Anomalies(); len(a) > 0 {
 		return fail(prop, "right-constructor", "not-part-of-the-build", "%s", a[0])
+	}
+	// a key of a defined string type is not the registered name: nothing is registered under it
+	for _, o := range x.R.Obs {
+		if o.Kind != "resolve-aliaskey" {
+			continue
+		}
+		if o.Panic != nil {
+			return fail(prop, "no-panic", o.Kind, "GetKeyed(s%d,%s) with a key of a defined string type panicked: %v", o.Scope, o.Ident, o.Panic)
+		}
+		if o.Err == nil {
+			return fail("C04", "identity-resolvable", "key-of-another-type", "GetKeyed(s%d, %s, a key of a defined string type that prints like the registered name) succeeded: that identity is not registered", o.Scope, kit.TypeName(o.Ident.T))
+		}
+		if !kit.IsNotFound(o.Err) && !kit.IsDisposed(o.Err) {
+			return fail("C04", "identity-resolvable", "key-of-another-type/wrong-class", "GetKeyed(s%d,%s) with a key of a defined string type failed with %v, want service-not-found", o.Scope, o.Ident, firstLine(o.Err))
+		}
 	}
 	return nil
 }
